@@ -96,7 +96,12 @@ def explore(res, rng, n, areas):
             tv.append((name, args, (lambda f=f, args=args: f(*args))))
             res.evaluations += 1
             res.nontrivial.add((name, args))
-            v = f(*args)
+            try:
+                v = f(*args)
+            except Exception as e:  # noqa
+                fail(res, 'admissible parameters rejected: ' + type(e).__name__ + ' ' + str(e)[:80], name, args, None)
+                tv.pop()
+                continue
             if not (v >= 0):
                 fail(res, 'non-negative', name, args, v)
     gen.validate(res, 'Wave', [c for c in tv if c[0] in ('piersonMoskowitzSpectrum', 'jonswapSpectrum', 'isscSpectrum',
@@ -106,66 +111,69 @@ def explore(res, rng, n, areas):
     res.samples += [{'fn': nm, 'args': list(a)} for nm, a, _ in tv[:3]]
     # ---- areas (numerical quadrature of the implementation: the failing-input search)
     for _ in range(areas):
-        wp, Hs, sg = pos(rng, 0.3, 1.5), pos(rng, 0.5, 12), pos(rng, 0.02, 0.1)
-        checks = [
-            ('isscSpectrum', (wp, Hs), area(lambda w: lsm.isscSpectrum(w, wp, Hs), 0, math.inf, wp), Hs * Hs / 16),
-            ('gaussianSwellSpectrum', (wp, Hs, sg), area(lambda w: lsm.gaussianSwellSpectrum(w, wp, Hs, sg), wp - 60 * sg * 2 * math.pi,
-                                                      wp + 60 * sg * 2 * math.pi, wp), Hs * Hs / 16),
-        ]
-        Uw, al, be, g = pos(rng, 5, 30), rng.choice([0.0081, 0.01]), rng.choice([0.74, 1.0]), 9.81
-        checks.append(('piersonMoskowitzSpectrum', (Uw, al, be), area(lambda w: lsm.piersonMoskowitzSpectrum(w, Uw, al, be, g), 0, math.inf, g / Uw),
-                       al * g * g / (4 * be) * (Uw / g) ** 4))
-        a = sample_args(rng, 'ochiHubbleSpectrum')[1:]
-        checks.append(('ochiHubbleSpectrum', a, area(lambda w: lsm.ochiHubbleSpectrum(w, *a), 0, math.inf, a[0]), (a[2] ** 2 + a[3] ** 2) / 16))
-        d1, kp = pos(rng, 5, 40), rng.choice([0.005, 0.02])
-        checks.append(('davenportDragDim', (d1, kp), area(lambda x: lsm.davenportSpectrumWithDragCoef(x, d1, kp, False), 0, math.inf, d1 / 1200),
-                       6 * kp * d1 * d1))
-        uz, z, z0 = pos(rng, 5, 40), rng.choice([10.0, 30.0]), rng.choice([0.03, 0.3])
-        uf = 0.4 * uz / math.log(z / z0)
-        checks.append(('davenportRoughDim', (uz, z, z0), area(lambda x: lsm.davenportSpectrumWithRoughnessLength(x, uz, z, z0, False), 0, math.inf, uz / 1200),
-                       6 * uf * uf))
-        sig, zz, t, k = pos(rng, 0.5, 4), rng.choice([10.0, 30.0, 80.0]), rng.randrange(5), rng.choice([1, 2, 3])
-        checks.append((f'ec1Dim{t}', (uz, sig, zz), area(lambda x: lsm.ec1Spectrum(x, uz, sig, zz, t, False), 0, math.inf, 0.01), sig * sig))
-        checks.append((f'iecDim{k}', (uz, sig, zz), area(lambda x: lsm.iecSpectrum(x, uz, sig, zz, k, False), 0, math.inf, 0.01), (IEC[k][0] * sig) ** 2))
-        for api, args, got, want in checks:
-            res.evaluations += 1
-            res.stat('area_' + api)
-            if not gen.close(got, want, 2e-5):
-                fail(res, 'area', api, args, [got, want])
-        # ---- peaks and the JONSWAP factor
-        for w in [wp * r for r in (0.3, 0.7, 0.9, 0.99, 1.01, 1.1, 1.5, 3.0)]:
-            if lsm.isscSpectrum(w, wp, Hs) > lsm.isscSpectrum(wp, wp, Hs) * (1 + 1e-12):
-                fail(res, 'peak', 'isscSpectrum', (w, wp, Hs), None)
-            if lsm.gaussianSwellSpectrum(w, wp, Hs, sg) > lsm.gaussianSwellSpectrum(wp, wp, Hs, sg) * (1 + 1e-12):
-                fail(res, 'peak', 'gaussianSwellSpectrum', (w, wp, Hs, sg), None)
-            gm = rng.choice([1.0, 2.0, 3.3, 6.0])
-            gg = rng.choice([9.81, 9.81, 32.174, 1.0, 3.7])          # gravity in other units / on other planets
-            j, j1, jp = (lsm.jonswapSpectrum(w, wp, 0.0081, 1.25, gm, gg), lsm.jonswapSpectrum(w, wp, 0.0081, 1.25, 1.0, gg),
-                         lsm.jonswapSpectrum(wp, wp, 0.0081, 1.25, gm, gg))
-            res.evaluations += 1
-            if j > jp * (1 + 1e-12):
-                fail(res, 'peak', 'jonswapSpectrum', (w, wp, gm, gg), [j, jp])
-            if not gen.close(j / lsm.jonswapSpectrum(w, wp, 0.0081, 1.25, gm, 9.81), (gg / 9.81) ** 2, 1e-12):
-                fail(res, 'g-squared', 'jonswapSpectrum', (w, wp, gm, gg), [j, lsm.jonswapSpectrum(w, wp, 0.0081, 1.25, gm, 9.81)])
-            if not (1 - 1e-12 <= j / j1 <= gm * (1 + 1e-12)):
-                fail(res, 'gamma-factor', 'jonswapSpectrum', (w, wp, gm), j / j1)
-        gmp = 3.3
-        if not gen.close(lsm.jonswapSpectrum(wp, wp, 0.0081, 1.25, gmp, 9.81) / lsm.jonswapSpectrum(wp, wp, 0.0081, 1.25, 1.0, 9.81), gmp, 1e-12):
-            fail(res, 'gamma-factor-at-peak', 'jonswapSpectrum', (wp,), None)
-        # ---- normalised = f * S(f) / scale at the reduced frequency
-        nf = pos(rng, 0.001, 2)
-        z0e, zmin = EC1[t]
-        lz = 300 * (max(zz, zmin) / 200) ** (0.67 + 0.05 * math.log(z0e))
-        lam = 42 if zz >= 60 else 0.7 * zz
-        rel = [('davenportDrag', lsm.davenportSpectrumWithDragCoef(10 * nf / d1, d1, kp, True), nf * lsm.davenportSpectrumWithDragCoef(nf, d1, kp, False) / (kp * d1 * d1)),
-               ('davenportRough', lsm.davenportSpectrumWithRoughnessLength(nf * z / uz, uz, z, z0, True), nf * lsm.davenportSpectrumWithRoughnessLength(nf, uz, z, z0, False) / (uf * uf)),
-               (f'ec1:{t}', lsm.ec1Spectrum(nf * lz / uz, uz, sig, zz, t, True), nf * lsm.ec1Spectrum(nf, uz, sig, zz, t, False) / (sig * sig)),
-               (f'iec:{k}', lsm.iecSpectrum(nf * IEC[k][1] * lam / uz, uz, sig, zz, k, True), nf * lsm.iecSpectrum(nf, uz, sig, zz, k, False) / (IEC[k][0] * sig) ** 2)]
-        for api, a1, a2 in rel:
-            res.evaluations += 1
-            if not gen.close(a1, a2, 1e-10):
-                fail(res, 'normalised-vs-dimensional', api, (nf, d1, kp, uz, z, z0, sig, zz), [a1, a2])
+        try:
+            wp, Hs, sg = pos(rng, 0.3, 1.5), pos(rng, 0.5, 12), pos(rng, 0.02, 0.1)
+            checks = [
+                ('isscSpectrum', (wp, Hs), area(lambda w: lsm.isscSpectrum(w, wp, Hs), 0, math.inf, wp), Hs * Hs / 16),
+                ('gaussianSwellSpectrum', (wp, Hs, sg), area(lambda w: lsm.gaussianSwellSpectrum(w, wp, Hs, sg), wp - 60 * sg * 2 * math.pi,
+                                                          wp + 60 * sg * 2 * math.pi, wp), Hs * Hs / 16),
+            ]
+            Uw, al, be, g = pos(rng, 5, 30), rng.choice([0.0081, 0.01]), rng.choice([0.74, 1.0]), 9.81
+            checks.append(('piersonMoskowitzSpectrum', (Uw, al, be), area(lambda w: lsm.piersonMoskowitzSpectrum(w, Uw, al, be, g), 0, math.inf, g / Uw),
+                           al * g * g / (4 * be) * (Uw / g) ** 4))
+            a = sample_args(rng, 'ochiHubbleSpectrum')[1:]
+            checks.append(('ochiHubbleSpectrum', a, area(lambda w: lsm.ochiHubbleSpectrum(w, *a), 0, math.inf, a[0]), (a[2] ** 2 + a[3] ** 2) / 16))
+            d1, kp = pos(rng, 5, 40), rng.choice([0.005, 0.02])
+            checks.append(('davenportDragDim', (d1, kp), area(lambda x: lsm.davenportSpectrumWithDragCoef(x, d1, kp, False), 0, math.inf, d1 / 1200),
+                           6 * kp * d1 * d1))
+            uz, z, z0 = pos(rng, 5, 40), rng.choice([10.0, 30.0]), rng.choice([0.03, 0.3])
+            uf = 0.4 * uz / math.log(z / z0)
+            checks.append(('davenportRoughDim', (uz, z, z0), area(lambda x: lsm.davenportSpectrumWithRoughnessLength(x, uz, z, z0, False), 0, math.inf, uz / 1200),
+                           6 * uf * uf))
+            sig, zz, t, k = pos(rng, 0.5, 4), rng.choice([10.0, 30.0, 80.0]), rng.randrange(5), rng.choice([1, 2, 3])
+            checks.append((f'ec1Dim{t}', (uz, sig, zz), area(lambda x: lsm.ec1Spectrum(x, uz, sig, zz, t, False), 0, math.inf, 0.01), sig * sig))
+            checks.append((f'iecDim{k}', (uz, sig, zz), area(lambda x: lsm.iecSpectrum(x, uz, sig, zz, k, False), 0, math.inf, 0.01), (IEC[k][0] * sig) ** 2))
+            for api, args, got, want in checks:
+                res.evaluations += 1
+                res.stat('area_' + api)
+                if not gen.close(got, want, 2e-5):
+                    fail(res, 'area', api, args, [got, want])
+            # ---- peaks and the JONSWAP factor
+            for w in [wp * r for r in (0.3, 0.7, 0.9, 0.99, 1.01, 1.1, 1.5, 3.0)]:
+                if lsm.isscSpectrum(w, wp, Hs) > lsm.isscSpectrum(wp, wp, Hs) * (1 + 1e-12):
+                    fail(res, 'peak', 'isscSpectrum', (w, wp, Hs), None)
+                if lsm.gaussianSwellSpectrum(w, wp, Hs, sg) > lsm.gaussianSwellSpectrum(wp, wp, Hs, sg) * (1 + 1e-12):
+                    fail(res, 'peak', 'gaussianSwellSpectrum', (w, wp, Hs, sg), None)
+                gm = rng.choice([1.0, 2.0, 3.3, 6.0])
+                gg = rng.choice([9.81, 9.81, 32.174, 1.0, 3.7])          # gravity in other units / on other planets
+                j, j1, jp = (lsm.jonswapSpectrum(w, wp, 0.0081, 1.25, gm, gg), lsm.jonswapSpectrum(w, wp, 0.0081, 1.25, 1.0, gg),
+                             lsm.jonswapSpectrum(wp, wp, 0.0081, 1.25, gm, gg))
+                res.evaluations += 1
+                if j > jp * (1 + 1e-12):
+                    fail(res, 'peak', 'jonswapSpectrum', (w, wp, gm, gg), [j, jp])
+                if not gen.close(j / lsm.jonswapSpectrum(w, wp, 0.0081, 1.25, gm, 9.81), (gg / 9.81) ** 2, 1e-12):
+                    fail(res, 'g-squared', 'jonswapSpectrum', (w, wp, gm, gg), [j, lsm.jonswapSpectrum(w, wp, 0.0081, 1.25, gm, 9.81)])
+                if not (1 - 1e-12 <= j / j1 <= gm * (1 + 1e-12)):
+                    fail(res, 'gamma-factor', 'jonswapSpectrum', (w, wp, gm), j / j1)
+            gmp = 3.3
+            if not gen.close(lsm.jonswapSpectrum(wp, wp, 0.0081, 1.25, gmp, 9.81) / lsm.jonswapSpectrum(wp, wp, 0.0081, 1.25, 1.0, 9.81), gmp, 1e-12):
+                fail(res, 'gamma-factor-at-peak', 'jonswapSpectrum', (wp,), None)
+            # ---- normalised = f * S(f) / scale at the reduced frequency
+            nf = pos(rng, 0.001, 2)
+            z0e, zmin = EC1[t]
+            lz = 300 * (max(zz, zmin) / 200) ** (0.67 + 0.05 * math.log(z0e))
+            lam = 42 if zz >= 60 else 0.7 * zz
+            rel = [('davenportDrag', lsm.davenportSpectrumWithDragCoef(10 * nf / d1, d1, kp, True), nf * lsm.davenportSpectrumWithDragCoef(nf, d1, kp, False) / (kp * d1 * d1)),
+                   ('davenportRough', lsm.davenportSpectrumWithRoughnessLength(nf * z / uz, uz, z, z0, True), nf * lsm.davenportSpectrumWithRoughnessLength(nf, uz, z, z0, False) / (uf * uf)),
+                   (f'ec1:{t}', lsm.ec1Spectrum(nf * lz / uz, uz, sig, zz, t, True), nf * lsm.ec1Spectrum(nf, uz, sig, zz, t, False) / (sig * sig)),
+                   (f'iec:{k}', lsm.iecSpectrum(nf * IEC[k][1] * lam / uz, uz, sig, zz, k, True), nf * lsm.iecSpectrum(nf, uz, sig, zz, k, False) / (IEC[k][0] * sig) ** 2)]
+            for api, a1, a2 in rel:
+                res.evaluations += 1
+                if not gen.close(a1, a2, 1e-10):
+                    fail(res, 'normalised-vs-dimensional', api, (nf, d1, kp, uz, z, z0, sig, zz), [a1, a2])
 
+        except Exception as e:  # noqa
+            fail(res, 'admissible parameters rejected: ' + type(e).__name__ + ' ' + str(e)[:120], 'spectrum function (areas / peaks / normalisation block)', (), None)
 
 def run(tier, seed):
     res = core.Result(PID, tier, seed)
